@@ -37,7 +37,9 @@ def run(tier, replay=None):
                             # the directed UDP path is a CONNECTED socket: strangers' datagrams never reach the call
                             ("MC_Transport", "MC_Transport_udpstrays.cfg", {"workers": 4}, "pass"),
                             ("MC_Transport", "XF_UnconnectedUDP.cfg", {"workers": 4}, "fail")])
-    summ = common.harness_traces("c06", tier, shards=8, env=env)
+    from .c05 import export
+    layouts0, _ = export()
+    summ = common.harness_traces("c06", tier, shards=8, env=env, extra_args=["-x", "layouts=" + layouts0])
     common.validate(v, "Trace_Api", "Trace_Api.cfg", summ, key)
     v.coverage["configurations"] = summ["extra"]["configurations"]
     # the source address of every kind of request, seen from the farm (bind addresses 127.0.0.2 / 127.0.0.3)
